@@ -23,12 +23,13 @@ import traceback
 
 import vf  # noqa: F401
 from vf import talref
+from vf.checks.c17 import StepBudget
 from vf.common import Check, Scratch, main_wrapper, run_shards
 
 from simpletal import simpleTAL, simpleTALES  # noqa: E402
 
 #         canary  python  handler  docs  restore
-SIZES = {"quick": (3000, 300, 24, 3000, 3000), "thorough": (40000, 1500, 60, 40000, 40000)}  # thorough: per shard
+SIZES = {"quick": (3000, 300, 24, 3000, 3000), "thorough": (60000, 1500, 60, 60000, 60000)}  # thorough: per shard
 
 
 class Audit:
@@ -326,7 +327,8 @@ ASSUMPTIONS = [
     "inert twin of a hostile context = same shape with every non-alphanumeric character replaced by x",
     "document grammar never produces stray end tags (a documented compile error), <![CDATA[, or "
     "script/style content with markup metacharacters outside the keyed risky class",
-    "step/wall guards: none needed - templates are finite and generated without recursion",
+    "an expansion needing more than 200,000 interpreter steps is reported as non-terminating "
+    "(generated cases need fewer than 10^4)",
 ]
 
 
@@ -337,6 +339,14 @@ def main() -> int:
         run_shards(chk, "vf.checks.c18", 16)
         return chk.finish(RULE, ASSUMPTIONS)
     sys.addaudithook(Audit.hook)
+    orig_execute = simpleTAL.TemplateInterpreter.execute
+
+    def execute(interp, template):      # deterministic guard against endless expansions
+        if not isinstance(interp.commandHandler, StepBudget):
+            interp.commandHandler = StepBudget(interp.commandHandler)
+        return orig_execute(interp, template)
+
+    simpleTAL.TemplateInterpreter.execute = execute
     n_canary, n_py, n_handler, n_doc, n_restore = SIZES[chk.tier]
     if chk.replay_case:
         single = {"canary": canary_case, "passthrough": passthrough_case, "restore": restore_case}
